@@ -769,6 +769,10 @@ func (s *programState) makeAllotment(monetary *big.Int, items []parser.Allotment
 	}
 
 	if remainingAllotmentIndex != -1 {
+		// "remaining" stands for what is left of the whole: the other portions cannot exceed it
+		if totalAllotment.Cmp(big.NewRat(1, 1)) == 1 {
+			return nil, InvalidAllotmentSum{ActualSum: *totalAllotment}
+		}
 		allotments[remainingAllotmentIndex] = new(big.Rat).Sub(big.NewRat(1, 1), totalAllotment)
 	} else if totalAllotment.Cmp(big.NewRat(1, 1)) != 0 {
 		return nil, InvalidAllotmentSum{ActualSum: *totalAllotment}
